@@ -1,7 +1,7 @@
 """C01 — encode/decode round trip reproduces the geometry exactly (modulo quantization)."""
 from vlib.engine import Case
 from . import ebenc_cases
-from . import e2e, e2etags, ebcases, geomgen as G, kdcases, topo2, seqenc_cases
+from . import e2e, e2etags, ebcases, geomgen as G, kdcases, topo2, seqenc_cases, options_cases
 
 ID = "C01"
 LEVEL = "proof"
@@ -169,6 +169,8 @@ def generate(rng, tier):
             cases.append(case(g, toks, info, ("gen:special-topology",)))
     # encoder model of the sequential methods vs. the C++ encoders, byte for byte (DracoModel/SeqEncoder.lean)
     cases += seqenc_cases.cases(rng, 600 if tier == "thorough" else 150, 2000 if tier == "thorough" else 300)
+    # option store (Options / DracoOptions / GetSpeed) vs. lean/DracoModel/Options.lean: what the encoder model's option resolution rests on
+    cases += options_cases.cases(rng, 800 if tier == "thorough" else 200)
     # the Edgebreaker decoder model driven through every branch on purpose (standard / valence traversal, split
     # events, holes, seams, all mesh prediction schemes); reached branches show as eb:* in input_distribution
     cases += ebcases.cases(rng, tier)
